@@ -221,7 +221,7 @@ def run_worker(ctx, family, infile, args, shards=None, prefix=None, timeout=1800
     return res
 
 
-def run_oracle(ctx, module, obsfiles, consts=None, timeout=1200, heap='3g'):
+def run_oracle(ctx, module, obsfiles, consts=None, timeout=1200, heap='3g', cfg_names=('ObsFile', 'VerdictFile')):
     """Evaluate the property predicates of a TLA+ oracle module on observation files, one TLC
     process per file, in parallel.  Returns the list of (observation, verdict) pairs."""
     consts = consts or {}
@@ -233,7 +233,7 @@ def run_oracle(ctx, module, obsfiles, consts=None, timeout=1200, heap='3g'):
         if os.path.getsize(obsfiles[i]) == 0:
             return []
         slim = obsfiles[i] + '.slim'
-        cfg = 'CONSTANTS\nObsFile = "%s"\nVerdictFile = "%s"\n' % (slim if os.path.exists(slim) else obsfiles[i], vf)
+        cfg = 'CONSTANTS\n%s = "%s"\n%s = "%s"\n' % (cfg_names[0], slim if os.path.exists(slim) else obsfiles[i], cfg_names[1], vf)
         for k, v in consts.items():
             cfg += '%s = %s\n' % (k, v)
         cfg += 'INIT Init\nNEXT Next\n'
